@@ -338,7 +338,9 @@ def run(shard, ctx):
         x.set_velocity(127), x.set_channel(15)
         ctx.check("bounds: setters store the value", x.velocity == 127 and x.channel == 15, {}, [127, 15], [x.velocity, x.channel])
         for bad in ["H", "c", "C#x", "Cis", "C-4-5", "C-x", "C-", "-4", "4", "C 4", "C4", "Cb-", "#C", "c#-4", "C♯", "B#-4.5", " C", "C\n", "Bb\n", "Eb\n-3", "C\t", "C ", "C#\r\n", "\nC",
-                    "C-4\n", "C- 4", "C-+4", "C-1_0", "C-4 ", "Eb- 3", "F#-\t2", "C-0x4", "G--2", "A-4-", "{}", "C{0}", "%s", "C%d", "C-%s"]:
+                    "C-4\n", "C- 4", "C-+4", "C-1_0", "C-4 ", "Eb- 3", "F#-\t2", "C-0x4", "G--2", "A-4-", "{}", "C{0}", "%s", "C%d", "C-%s",
+                    # quotes, as around a printed form that was pasted carelessly
+                    "C'", "'C", "C-4'", "'C-4", "''F#-3", "\"C-4\"", "C-4\"", "`C`", "C,", "c'"]:
             st, r = ctx.call(Note, bad)
             ctx.check("bounds: malformed names are rejected", st == "exc", {"name": bad}, "exception", repr(r), mechanism="reject-name")
             st, r = ctx.call(Note().set_note, bad)
